@@ -22,13 +22,15 @@ LEVEL_NOTE = "Trusted: Lean kernel + std axioms, harness, generators. Modelled: 
 TECHNIQUE = "Lean 4 proof (delivery primitives + serializer theorems) + differential multi-client histories with monitor on delivered bytes"
 DESIGN_REF = "§5 C02"
 project = WP.make_project(ID)
-relevant_verdict = WP.make_relevant(ID)
+relevant_verdict = WP.make_relevant(ID, also=("C03",))
 
 
 def build_one(exe, rng, idx):
     cfg = W.rand_cfg(rng, rewrites=rng.random() < 0.5, ttl=rng.random() < 0.3, nclients=rng.randrange(2, 4), nservers=rng.randrange(1, 3), rwout_p=0.5)
     for c in cfg.clients:
         c["reqma"] = c["reqmap"] = False
+        if rng.random() < 0.5:
+            c["rwuser"] = rng.choice(W.MOD_POOL[:4] + W.MOD_POOL[7:8])
     cfg.opts["verifyeap"] = 0
     names = [s["name"] for s in cfg.servers]
     cfg.realms = [dict(name=b"*", srv=names, acc=names, msg=None, accresp=False)]
@@ -57,7 +59,7 @@ def build_one(exe, rng, idx):
             h.send("writer " + ent[0])
             attrs = [(18, b"hi")]
             if rng.random() < 0.4:
-                attrs.append((1, rng.choice([b"other@realm", b"bob@example.org", b""])))
+                attrs.append((1, rng.choice([b"other@realm", b"bob@example.org", b"", b"b", b"anonymous@some.where.example.org", b"x" * rng.choice([1, 9, 10, 60, 253])])))
             if rng.random() < 0.3:
                 attrs.append(R.rand_attr(rng))
             out = h.send("reply %s %s" % (ent[0], h.make_reply(ent, attrs=attrs).hex()))
